@@ -61,6 +61,11 @@ def check_listing(rng, V, n_files, hist):
     for i in range(n_files):
         cmds = [P.gen_cmd(rng) for _ in range(rng.randint(1, 6))]
         text, exp = P.render(rng, cmds, noisy=rng.random() < 0.7)
+        if i < 4:
+            # files larger than the usual buffer sizes (4, 8, 64 KiB), multi-byte characters at every offset of a block boundary
+            ncmd = [700, 1500, 1500, 12000][i]
+            text = " " * (i % 3) + " ".join(P.render(rng, [P.gen_cmd(rng)], noisy=False)[0] for _ in range(ncmd))
+            text += rng.choice(["", "\n" + rng.choice(P.KOREAN_PROSE)])
         path = os.path.join(tmp, "t%d.hyeong" % i)
         open(path, "w", encoding="utf-8").write(text)
         p = subprocess.run([C.HYEONG, "--color", "never", "check", path], stdout=subprocess.PIPE, stderr=subprocess.PIPE, timeout=60)
@@ -184,6 +189,13 @@ def run(prop, tier, seed):
     for ops in (["?"] * 4096, ["!"] * 4096, ["?", "!"] * 2048):
         text = "형." + "".join(op + rng.choice(P.HEARTS + "_").replace("_", "") for op in ops)
         cases.append(("chain-4096", text, None))
+    # programs with plain Korean prose around them (comments): start syllables after the last ending syllable, endings, fillers
+    for _ in range(max(40, n_unst // 10)):
+        cmds = [P.gen_cmd(rng) for _ in range(rng.choice([0, 1, 2, 3]))]
+        text, _ = P.render(rng, cmds, noisy=rng.random() < 0.3)
+        pre = rng.choice(["", "", rng.choice(P.KOREAN_PROSE) + rng.choice([" ", "\n"])])
+        post = rng.choice(["", rng.choice([" ", "\n", " # "]) + rng.choice(P.KOREAN_PROSE)])
+        cases.append(("prose", pre + text + post + rng.choice(["", "\n"]), None))
     for _ in range(n_unst):
         cases.append(("unstructured", P.gen_unstructured(rng, rng.choice([1, 3, 8, 20, 60])), None))
     for _ in range(n_mal):
@@ -255,6 +267,10 @@ def run(prop, tier, seed):
     samples = [dict(text=cases[i][1][:120], tag=cases[i][0], result=l0[i][:200]) for i in range(min(len(CORPUS), len(cases) - 1), len(cases), max(1, len(cases) // 6))][:8]
     if prop == "C08":
         samples += check_listing(rng, V, 40 if quick else 600, hist)
+    else:
+        # C04 through the tool: files (among them some larger than any read buffer) parsed by `hyeong check` give the commands
+        # the library parser — and the grammar — give for their text
+        samples += check_listing(rng, V, 8 if quick else 60, hist)
     if not pc["ok"]:
         V.violation("proof:" + prop, "proof obligations of %s do not check: %s" % (prop, "; ".join(pc["problems"])),
                     dict(theorem_file="coq/Props/%s.v" % prop, problems=pc["problems"]), found_input=False)
